@@ -51,6 +51,17 @@ CLAIMED["C13"] = dict(
     note=NOTE_COMMON + "; meshes WITH subregions use concrete scale factors (several signs/anisotropies) because the constructor's "
          "lattice checks on a symbolically scaled box are beyond z3's nonlinear reach; regions and meshes without subregions use symbolic factors",
 )
+CLAIMED["C02"] = dict(
+    text="Field construction / update_field_values / the array setter run symbolically for every kind of specification: "
+         "constants and vectors (free reals), per-cell arrays (every entry free), callables (uninterpreted functions of the "
+         "point, i.e. every function at once), per-subregion dictionaries over disjoint / overlapping / nested cell-aligned "
+         "subregions with constant, callable or missing default, and source fields on another mesh (real xarray nearest "
+         "selection, symbolic values). Each stored entry is compared with the specification at the closed-form cell centre; "
+         "sampling at a free point, component access, iteration order, Field.line (points, distances, values) and refusals that "
+         "must leave the field unchanged are separate obligations.",
+    ref="DESIGN.md section 2 / C02",
+    note=NOTE_COMMON + "; dtype kinds and the source-field geometry are concrete configurations (dtype is not a solver notion)",
+)
 PENDING_REASON = "check not built yet in this round (planned: DESIGN.md section 2); not claimed until it runs green"
 NA = {}
 
